@@ -47,6 +47,9 @@ class LoopGen:
         r = self.r
         kinds = ["outer", "const"] + (["dim", "dim"] if self.p["allocs"] else []) + (["iv", "min", "calc"] if ivs else [])
         k = r.choice(kinds)
+        enclosing = [x for x in scope if x.startswith(("%d", "%v"))]  # index values computed in an enclosing loop body
+        if enclosing and r.random() < 0.25:
+            return r.choice(enclosing)
         if k == "outer":
             return r.choice(scope)
         if k == "const":
@@ -105,7 +108,9 @@ class LoopGen:
             elif k == "for":
                 if p["perfect"] and out:
                     continue
-                out.append(self.loop(depth, scope, ivs, bufs))
+                # index values defined earlier in this body dominate the inner loop and may be used inside it
+                visible = [x["name"] for x in out if x["k"] in ("dim", "calc") and x.get("srcty", TA) == TA]
+                out.append(self.loop(depth, scope + visible, ivs, bufs))
                 if p["perfect"]:
                     break
             elif k == "alloc":
